@@ -29,6 +29,18 @@ static void one(const uint8_t *ad, size_t adlen, const uint8_t *m, size_t mlen, 
             api_inc_encfin[alg](&st, c + mlen);
             api_inc_free[alg](&st);
             got = clen;
+            /* associated data taken from the object's own public nonce field (start(&st, st.nonce, n)): the data is what the field holds when the call is made */
+            if (adlen <= 16 && adlen > 0 && mlen <= 24) {
+                uint8_t *c3 = hx_buf(clen), *e3 = hx_buf(clen);
+                ref_aead_encrypt(alg, key, nonce, nonce, adlen, m, mlen, e3);
+                api_inc_init[alg](&st, nonce, key);
+                api_inc_start[alg](&st, api_inc_nonce(alg, &st), adlen);
+                api_inc_enc[alg](&st, m, c3, mlen); api_inc_encfin[alg](&st, c3 + mlen); api_inc_free[alg](&st);
+                hx_stat("evaluations", 1);
+                if (memcmp(c3, e3, clen) != 0 || !hx_buf_ok(c3, clen))
+                    hx_fail("encrypt:incremental-ad-is-nonce-field", "alg=%s result with the first %zu bytes of the object's own nonce field as associated data differs from the specification (mlen=%zu pat=%s)", api_alg_name[alg], adlen, mlen, pat);
+                hx_free(c3); hx_free(e3);
+            }
             /* the same packet in four calls (one of them empty), split points varying with the shape */
             {
                 uint8_t *c2 = hx_buf(clen);
